@@ -217,7 +217,7 @@ BONDS = "loop_\n _geom_bond_atom_site_label_1\n _geom_bond_atom_site_label_2\n _
 
 def read_menu():
     m = []
-    for hm, ok in (("'P 1'", True), ('P1', True), ("'P -1'", False), ("'P 21/c'", False), ("'F m -3 m'", False), ("'P 4'", False), ("'P 2'", False)):
+    for hm, ok in (("'P 1'", True), ('P1', True), ("'P -1'", False), ("'P 21/c'", False), ("'F m -3 m'", False), ("'P 4'", False), ("'P 2'", False), ("'P 1 21/c 1'", False), ("'P 1 2 1'", False), ("'P 1 1 2/m'", False), ("'P 1 c 1'", False), ("'P 1 1 21'", False), ("'P 1 2/m 1'", False), ("'P 1 21/n 1'", False), ("'I 1'", False), ("'A 1'", False), ("'P 1 -1'", False)):
         m.append(('H-M name %s %s' % (hm, 'accepted' if ok else 'rejected'), HEAD % hm + CELLTXT + ATOMS_F, ok, 'f'))
     m.append(('no H-M item', "data_x\n" + CELLTXT + ATOMS_F, True, 'f'))
     m.append(('uncertainties, fractional, bonds', HEAD % "'P 1'" + CELLTXT + ATOMS_F + BONDS, True, 'f'))
